@@ -6,6 +6,7 @@
 From KV Require Import Res.Pipeline Res.PipelineProofs Res.PipelineFrameProofs Res.PipelinePermProofs Res.RenameProofs Res.C03Facts
                        Res.NameRefProofs Res.CsvFacts Base.StrOrder.
 From KV Require Import Yaml.FieldSpecSpec Yaml.FieldSpecProofs.
+From KV Require Yaml.TotalityProofs.
 From KV Require Res.Labels Res.LabelsDefaults Res.Namespace Res.Generators Res.Hash.
 Local Open Scope string_scope.
 
@@ -544,3 +545,189 @@ Section Acc.
     intros Hwf. apply build_wrap; [eauto|]. intros m H. exact (proj2 (accumulate_Inv _ _ Hwf H)).
   Qed.
 End Acc.
+
+(* ================= no Panic while accumulating well-formed trees ================= *)
+
+Definition np {A} (r : res A) : Prop := r <> Panic.
+
+Lemma np_bind {A B} (w : res A) (g : A -> res B) :
+  np w -> (forall a, w = Ok a -> np (g a)) -> np (bind w g).
+Proof. unfold np. destruct w; cbn; intros H1 H2; try discriminate; auto. Qed.
+
+Lemma np_mapM_in {A B} (f : A -> res B) l : (forall x, In x l -> np (f x)) -> np (mapM f l).
+Proof.
+  intros Hf. induction l as [|x t IH]; cbn [mapM]; [discriminate|].
+  apply np_bind; [apply Hf; left; reflexivity|]. intros y _. apply np_bind; [apply IH; intros; apply Hf; right; assumption|].
+  intros; discriminate.
+Qed.
+
+Ltac np_case :=
+  unfold np;
+  repeat match goal with
+         | |- Ok _ <> Panic => discriminate
+         | |- Err <> Panic => discriminate
+         | |- Diverge <> Panic => discriminate
+         | |- (if ?c then _ else _) <> Panic => destruct c
+         | |- (match ?x with _ => _ end) <> Panic => destruct x
+         end.
+
+Lemma np_prev_ids r : hist_ok r -> np (prev_ids r).
+Proof. intros H. destruct (prev_ids_triples r H) as (p & E & _). unfold np. rewrite E. discriminate. Qed.
+
+Lemma np_org_id r : W r -> np (org_id cs r).
+Proof. intros [[Hh _] _]. unfold org_id. apply np_bind; [apply np_prev_ids; exact Hh|]. intros p _. np_case. Qed.
+
+Lemma np_append_all l : forall acc, np (append_all cs acc l).
+Proof.
+  induction l as [|r t IH]; intros acc; cbn [append_all]; [discriminate|].
+  apply np_bind; [unfold append_one; np_case|]. intros; apply IH.
+Qed.
+
+Lemma np_gen_resource secret g : np (gen_resource secret g).
+Proof.
+  unfold gen_resource. apply np_bind; [|intros; discriminate]. unfold gen_node.
+  destruct (String.eqb (pg_name g) ""); [discriminate|].
+  apply np_bind; [apply np_mapM_in; intros; unfold Generators.parse_literal; np_case|]. intros kvs _.
+  apply np_bind; [|intros; np_case].
+  generalize (@nil (string * string)). induction kvs as [|[k v] t IH]; intros acc; cbn; [discriminate|].
+  destruct (Generators.dict_get k acc); [discriminate|apply IH].
+Qed.
+
+Lemma np_matching_any id m : Forall W m -> forall i, np (matching_any id i m).
+Proof.
+  induction 1 as [|r t Hr _ IH]; intros i; cbn [matching_any]; [discriminate|].
+  destruct (nil_or_empty (r_node r)); [apply IH|].
+  apply np_bind; [apply np_prev_ids; exact (proj1 (proj1 Hr))|]. intros p _. apply np_bind; [apply IH|]. intros; discriminate.
+Qed.
+
+Section NoPanic.
+  Variable nonstr : string -> bool.
+
+  Lemma np_absorb_create m b r :
+    b = Generators.BUnspecified \/ b = Generators.BCreate -> Forall W m -> np (absorb nonstr m b r).
+  Proof.
+    intros Hb HW. unfold absorb. apply np_bind; [apply np_matching_any; exact HW|]. intros ms _.
+    destruct (create_action (List.length ms) b Hb) as [E|E]; rewrite E; [unfold append_one; np_case|discriminate].
+  Qed.
+
+  Lemma np_run_gens secret gens : forall m,
+    Forall creates gens -> Forall gen_good gens -> Inv m -> np (run_gens nonstr secret gens m).
+  Proof.
+    induction gens as [|g t IH]; intros m Hc Hg HI; cbn [run_gens]; [discriminate|].
+    inversion Hc as [|? ? Hc1 Hc2]; subst. inversion Hg as [|? ? Hg1 Hg2]; subst.
+    apply np_bind; [apply np_gen_resource|]. intros r Er.
+    apply np_bind; [apply np_absorb_create; [exact Hc1|exact (proj1 HI)]|]. intros m' Em. apply IH; auto.
+    eapply (run_gens_Inv nonstr secret [g]); [constructor; [exact Hc1|constructor]|constructor; [exact Hg1|constructor]|exact HI|].
+    cbn [run_gens]. rewrite Er. cbn [bind]. rewrite Em. reflexivity.
+  Qed.
+
+  Lemma np_run_generators d m : dirs_wf d -> Inv m -> np (run_generators nonstr d m).
+  Proof.
+    intros Hd. pose proof Hd as (_ & _ & [Hc1 Hc2] & Hg1 & Hg2 & _).
+    unfold run_generators. generalize gen_generator_order. intros ks. revert m.
+    induction ks as [|k t IH]; intros m HI; cbn [run_generator_kinds]; [discriminate|].
+    apply np_bind.
+    - destruct (String.eqb k "ConfigMapGenerator"); [apply np_run_gens; auto|].
+      destruct (String.eqb k "SecretGenerator"); [apply np_run_gens; auto|discriminate].
+    - intros mm E. apply IH.
+      destruct (String.eqb k "ConfigMapGenerator"); [exact (run_gens_Inv _ _ _ _ _ Hc1 Hg1 HI E)|].
+      destruct (String.eqb k "SecretGenerator"); [exact (run_gens_Inv _ _ _ _ _ Hc2 Hg2 HI E)|]. inv E. exact HI.
+  Qed.
+
+  Lemma np_fs_apply_scalar fs v obj : np (fs_apply (Some KScalar) TStr (fun n => set_scalar_to (v n) n) fs obj).
+  Proof. apply TotalityProofs.fs_apply_no_panic. intros n. unfold set_scalar_to. apply TotalityProofs.set_scalar_total. Qed.
+
+  Lemma np_affix_steps affix add newv org fss : forall r, np (affix_steps cs affix add newv org fss r).
+  Proof.
+    induction fss as [|fs t IH]; intros r; cbn [affix_steps]; [discriminate|].
+    apply np_bind; [|intros; apply IH]. unfold affix_step. destruct (negb _); [discriminate|].
+    apply np_bind; [|intros; discriminate]. apply (np_fs_apply_scalar fs (fun n => newv (node_value n))).
+  Qed.
+
+  Lemma np_keys_pass fss kvs : forall obj, np (Labels.keys_pass nonstr fss kvs obj).
+  Proof.
+    induction kvs as [|kv t IH]; intros obj; cbn [Labels.keys_pass]; [discriminate|].
+    apply np_bind; [|intros; apply IH]. unfold Labels.key_pass. apply TotalityProofs.fsslice_apply_no_panic. intros n.
+    unfold Labels.set_entry. apply TotalityProofs.set_field_total.
+  Qed.
+
+  Lemma np_label_transform labels fss m : np (label_transform nonstr labels fss m).
+  Proof.
+    unfold label_transform. destruct labels; [discriminate|]. unfold map_nodes. apply np_mapM_in. intros r _.
+    apply np_bind; [unfold Labels.label_filter; apply np_keys_pass|]. intros; discriminate.
+  Qed.
+
+  Lemma np_label_transforms lts : forall m, np (label_transforms nonstr lts m).
+  Proof.
+    induction lts as [|[p fss] t IH]; intros m; cbn [label_transforms]; [discriminate|].
+    apply np_bind; [apply np_label_transform|]. intros; apply IH.
+  Qed.
+
+  Lemma np_label_transformers tc d : np (Labels.label_transformers tc d).
+  Proof.
+    assert (M1 : forall s x, np (Labels.merge_one s x)) by (intros; unfold Labels.merge_one; np_case).
+    assert (MA : forall inc s, np (Labels.merge_all s inc)).
+    { induction inc as [|x t IH]; intros s; cbn [Labels.merge_all]; [discriminate|]. apply np_bind; [apply M1|]. intros; apply IH. }
+    assert (LF : forall e, np (Labels.label_fs tc e)).
+    { intros e. unfold Labels.label_fs. apply np_bind; [apply MA|]. intros fss _.
+      destruct (Labels.ld_selectors e); [apply MA|].
+      apply np_bind; [destruct (Labels.ld_templates e); [apply MA|discriminate]|]. intros; apply M1. }
+    unfold Labels.label_transformers.
+    assert (G : np (do l <- mapM (fun e => do fss <- Labels.label_fs tc e; Ok (Labels.ld_pairs e, fss)) (Labels.d_labels d);
+                    Ok (l ++ [(Labels.d_common_labels d, Labels.tc_common_labels tc)])%list)).
+    { apply np_bind; [|intros; discriminate]. apply np_mapM_in. intros e _. apply np_bind; [apply LF|]. intros; discriminate. }
+    destruct (Labels.d_labels d); destruct (Labels.d_common_labels d); try exact G. discriminate.
+  Qed.
+
+  Lemma np_run_kind k d m : dirs_wf d -> Inv m -> np (run_kind nonstr k d m).
+  Proof.
+    intros (Hns & _) [HW _]. unfold run_kind. rewrite Hns.
+    destruct (String.eqb k "NamespaceTransformer"); [cbn; discriminate|].
+    destruct (String.eqb k "PrefixTransformer").
+    { unfold prefix_transform. destruct (String.eqb _ ""); [discriminate|]. apply np_mapM_in. intros r Hr.
+      unfold prefix_one. rewrite Forall_forall in HW. apply np_bind; [apply np_org_id; auto|]. intros org _.
+      destruct (should_skip _ org); [discriminate|apply np_affix_steps]. }
+    destruct (String.eqb k "SuffixTransformer").
+    { unfold suffix_transform. destruct (String.eqb _ ""); [discriminate|]. apply np_mapM_in. intros r Hr.
+      unfold suffix_one. rewrite Forall_forall in HW. apply np_bind; [apply np_org_id; auto|]. intros org _.
+      destruct (should_skip _ org); [discriminate|apply np_affix_steps]. }
+    destruct (String.eqb k "LabelTransformer").
+    { apply np_bind; [apply np_label_transformers|]. intros; apply np_label_transforms. }
+    destruct (String.eqb k "AnnotationsTransformer"); [apply np_label_transform|discriminate].
+  Qed.
+
+  Lemma np_run_order ks d : forall m, dirs_wf d -> Inv m -> np (run_order nonstr ks d m).
+  Proof.
+    induction ks as [|k t IH]; intros m Hd HI; cbn [run_order]; [discriminate|].
+    apply np_bind; [apply np_run_kind; assumption|]. intros m1 E.
+    pose proof (run_kind_Inv nonstr _ _ _ _ Hd HI E) as HI1. rewrite (drop_empties_W _ (proj1 HI1)). apply IH; assumption.
+  Qed.
+
+  Lemma np_acc_list (f : ptree -> res (list resource)) ents :
+    Forall (fun e => np (f e)) ents -> forall acc, np (acc_list f ents acc).
+  Proof.
+    induction 1 as [|e t He _ IH]; intros acc; [discriminate|].
+    rewrite acc_list_cons. apply np_bind; [exact He|]. intros sub _.
+    apply np_bind; [apply np_append_all|]. intros; apply IH.
+  Qed.
+
+  (* accumulating a tree of well-formed documents never panics *)
+  Theorem accumulate_no_panic t : tree_wf t -> accumulate nonstr t <> Panic.
+  Proof.
+    induction t as [docs|n d ents IH] using ptree_ind'; intros Hwf.
+    - cbn [accumulate]. apply np_append_all.
+    - inversion Hwf as [|? ? ? Hd He]; subst. rewrite accumulate_dir. destruct (is_empty_kust d ents); [discriminate|].
+      apply np_bind.
+      + apply np_acc_list. clear -IH He. induction ents; [constructor|]. inversion IH; subst. inversion He; subst. constructor; [unfold np; auto|auto].
+      + intros m0 E0.
+        assert (HI0 : Inv m0).
+        { destruct (PipelinePermProofs.acc_list_char _ _ _ _ E0) as (subs & F0 & -> & Hd0). cbn [app] in *.
+          split; [|apply Hd0; exact I]. apply Forall_concat.
+          clear -He F0. revert subs F0. induction ents as [|e t IHe]; intros subs F0; inv F0; [constructor|].
+          inversion He; subst. constructor; [|auto].
+          match goal with Hx : accumulate nonstr e = Ok _ |- _ => exact (proj1 (accumulate_Inv nonstr e _ ltac:(assumption) Hx)) end. }
+        apply np_bind; [apply np_run_generators; assumption|]. intros m1 E1.
+        pose proof (run_generators_Inv nonstr _ _ _ Hd HI0 E1) as HI1.
+        unfold run_transformers. apply np_bind; [apply np_label_transformers|]. intros; apply np_run_order; assumption.
+  Qed.
+End NoPanic.
